@@ -17,7 +17,7 @@
 (* all scripts ran; Verdict applies the final truth / clean-stack test.                      *)
 (* Hash values and signature checks are not computed here: Step takes an oracle record      *)
 (* orc == [top : bytes] (the observed result item) used only by those opcodes.              *)
-EXTENDS ScriptTok, BigNum, Bitwise
+EXTENDS ScriptTok, BigNum, Bitwise, SigCheck
 
 MaxElem(cx) == IF cx.genesis THEN Huge ELSE 520
 MaxOps(cx) == IF cx.genesis THEN Huge ELSE 500
@@ -81,6 +81,33 @@ IsHashOp(op) == op >= OP_RIPEMD160 /\ op <= OP_HASH256
 HashLen(op) == IF op = OP_RIPEMD160 \/ op = OP_SHA1 \/ op = OP_HASH160 THEN 20 ELSE 32
 IsSigOp(op) == op >= OP_CHECKSIG /\ op <= OP_CHECKMULTISIGVERIFY
 IsCondOp(op) == op >= OP_IF /\ op <= OP_ENDIF
+
+\* ---- signature opcodes (SigCheck.tla) over the abstract signature context cx.sx ---------------------
+MaxKeys(cx) == IF cx.genesis THEN Huge ELSE 20
+SigResult(vm, r, verify, npop) ==
+    IF r.k = "err" THEN E
+    ELSE IF ~verify THEN DS(vm, Push(Pop(vm.ds, npop), BoolItem(r.res)))
+    ELSE IF r.res THEN DS(vm, Pop(vm.ds, npop)) ELSE E
+SigExec(vm, cx, t) ==
+    LET ds == vm.ds
+        n == Len(ds)
+        toks == vm.scripts[vm.sidx].toks
+    IN
+    IF t.op = OP_CHECKSIG \/ t.op = OP_CHECKSIGVERIFY
+    THEN IF n < 2 THEN E
+         ELSE SigResult(vm, CheckSig(cx.sx, toks, vm.csep, Top(ds, 2), Top(ds, 1), cx.f), t.op = OP_CHECKSIGVERIFY, 2)
+    ELSE IF n < 1 \/ ~NumOK(Top(ds, 1), cx, MaxNumLen(cx)) THEN E
+    ELSE LET nk == ToInt(Num(Top(ds, 1))) IN
+         IF nk < 0 \/ nk > MaxKeys(cx) \/ vm.nops + nk > MaxOps(cx) THEN E
+         ELSE IF n < nk + 2 \/ ~NumOK(Top(ds, nk + 2), cx, MaxNumLen(cx)) THEN E
+         ELSE LET ns == ToInt(Num(Top(ds, nk + 2))) IN
+              IF ns < 0 \/ ns > nk THEN E
+              ELSE IF n < nk + ns + 3 THEN E
+              ELSE LET keys == [j \in 1..nk |-> Top(ds, 1 + j)]
+                       sigs == [j \in 1..ns |-> Top(ds, nk + 2 + j)]
+                       v1 == [vm EXCEPT !.nops = @ + nk]
+                   IN SigResult(v1, CheckMultiSig(cx.sx, toks, vm.csep, sigs, keys, Top(ds, nk + ns + 3), cx.f),
+                                t.op = OP_CHECKMULTISIGVERIFY, nk + ns + 3)
 
 \* ---- one opcode (no limit checks, no advance) ------------------------------------------------------
 Exec(vm, cx, t, fExec, orc) ==
@@ -239,7 +266,7 @@ Exec(vm, cx, t, fExec, orc) ==
                          ELSE IF Len(orc.top) # HashLen(op) THEN E
                          ELSE DS(vm, Push(Pop(ds, 1), orc.top))
       [] op = OP_CODESEPARATOR -> S([vm EXCEPT !.csep = vm.pc])
-      [] IsSigOp(op) -> U                         \* signature opcodes: SigCheck.tla (C06)
+      [] IsSigOp(op) -> IF cx.sigmode = "oracle" THEN SigExec(vm, cx, t) ELSE U
       \* OP_RESERVED, OP_VER, OP_RESERVED1/2, OP_2MUL/2DIV (handled before), undefined opcodes
       [] OTHER -> E
 
